@@ -1,6 +1,7 @@
 import VirtioVerif.Model.Proto
 import VirtioVerif.Model.Layout
 import VirtioVerif.Model.Gpu
+import VirtioVerif.Model.Sound
 /-!
 Native line-protocol driver over all models: one request line in, one reply line out.
 `case …` lines reset per-case state and are echoed as `case`.
@@ -10,6 +11,7 @@ open VirtioVerif
 structure World where
   dummy : Unit := ()
   gpu : Gpu.St := {}
+  snd : Sound.St := {}
 
 def World.fresh : World := {}
 
@@ -17,6 +19,7 @@ def step (w : World) (line : String) : World × String :=
   match line.trimAscii.toString.splitOn " " with
   | "case" :: _ => (World.fresh, "case")
   | "layout" :: op :: rest => (w, Layout.handle op (Proto.parseArgs rest))
+  | "snd" :: op :: rest => let (g, o) := Sound.handle w.snd op (Proto.parseArgs rest); ({ w with snd := g }, o)
   | "gpu" :: op :: rest => let (g, o) := Gpu.handle w.gpu op (Proto.parseArgs rest); ({ w with gpu := g }, o)
   | _ => (w, "bad-op")
 
